@@ -109,6 +109,12 @@ class _StatePointDict(JSONAttrDict):
         pass
 
     def _save(self):
+        # Like the base class, never save while synchronization is suspended:
+        # nested collections call this in the middle of an in-place update of
+        # the whole state point, whose final save follows once it is complete.
+        if self._suspend_sync:
+            return
+
         # State point modification triggers job migration for all jobs sharing
         # this state point (shallow copies of a single job).
         new_id = calc_id(self)
